@@ -41,11 +41,11 @@ class ThreadLocal(Generic[T]):
 
         :return: the stored value, or the value from the default_provider
         """
-        current_thread = threading.current_thread()
-        get = self.__store.get(current_thread.ident, None)
+        ident = threading.get_ident()
+        get = self.__store.get(ident, None)
         if get is None:
             get = self.__default_provider()
-            self.__store[current_thread.ident] = get
+            self.__store[ident] = get
         return get
 
     def set(self, val: T):
@@ -54,14 +54,11 @@ class ThreadLocal(Generic[T]):
 
         :param val: the value to store
         """
-        current_thread = threading.current_thread()
-        self.__store[current_thread.ident] = val
+        self.__store[threading.get_ident()] = val
 
     def clear(self):
         """Remove the value for this thread."""
-        current_thread = threading.current_thread()
-        if current_thread.ident in self.__store:
-            del self.__store[current_thread.ident]
+        self.__store.pop(threading.get_ident(), None)
 
     def clear_all(self):
         """Remove the values of all threads."""
@@ -74,8 +71,9 @@ class ThreadLocal(Generic[T]):
 
         :return: True if there is a value for this thread
         """
-        current_thread = threading.current_thread()
-        return current_thread.ident in self.__store
+        # (the ident, not current_thread(): we get called for the last events of a thread that has already left
+        # threading's registry, where current_thread() makes up a dummy thread and registers it for good)
+        return threading.get_ident() in self.__store
 
     @property
     def value(self):
